@@ -143,6 +143,57 @@ func runC02(c *hc.Ctx) error {
 			c.Sample(map[string]any{"input": in, "observed": got})
 		}
 	}
+	// routes on REAL grids (non-round: WebMercatorQuad; round with non-zero origin: NetherlandsRDNewQuad), deep levels
+	for k := 0; k < c.N(400, 20000); k++ {
+		name, id := "WebMercatorQuad", 12+c.Rng.Intn(8)
+		if k%3 == 0 {
+			name, id = "NetherlandsRDNewQuad", 10+c.Rng.Intn(5)
+		}
+		g, err := embeddedGrid(name, id)
+		if err != nil || g.Deep > 32 {
+			continue
+		}
+		size := int64(1) << g.Deep
+		w := Window{G: g, X0: g.Ext[0] + (size/8+c.Rng.Int63n(size/2))*g.Res, Y0: g.Ext[1] + (size/8+c.Rng.Int63n(size/2))*g.Res, W: 2 + c.Rng.Int63n(3), Unit: max64(1, g.Res/4)}
+		if c.Rng.Intn(2) == 0 { // aligned with a coarse quadrant corner, far from the origin
+			q := int64(1) << (g.Deep - uint(4+c.Rng.Intn(8)))
+			w.X0 = g.Ext[0] + (size/q*3/4)*q*g.Res - g.Res
+			w.Y0 = g.Ext[1] + (size/q*3/4)*q*g.Res - g.Res
+		}
+		nh := 1 + c.Rng.Intn(8)
+		var verts []Pt
+		ok := true
+		fix := func(p Pt) Pt {
+			x, ok1 := fixRoundTrip(p[0])
+			y, ok2 := fixRoundTrip(p[1])
+			ok = ok && ok1 && ok2
+			return Pt{x, y}
+		}
+		for j := 0; j < nh; j++ {
+			verts = append(verts, fix(w.randPt(c.Rng)))
+		}
+		a, b := verts[c.Rng.Intn(len(verts))], fix(w.randPt(c.Rng))
+		if c.Rng.Intn(2) == 0 {
+			b = verts[c.Rng.Intn(len(verts))]
+		}
+		if !ok || !g.inGrid([][]Pt{verts, {a, b}}) {
+			continue
+		}
+		level := g.Deep - uint(c.Rng.Intn(6))
+		got, err := routeImpl(g, verts, a, b, level)
+		if err != nil {
+			continue
+		}
+		want := g.expectedRoute(level, g.hotPixels(level, [][]Pt{verts}), a, b)
+		c.Sum.Evaluations++
+		c.Count("real grid " + name)
+		c.Nontrivial(fmt.Sprint(name, verts, a, b, level))
+		in := map[string]any{"grid": g.Name, "grid_int": map[string]any{"ext": g.Ext, "res": g.Res, "deep": g.Deep}, "hot_vertices_int": verts, "segment_int": []Pt{a, b}, "level": level}
+		if !reflect.DeepEqual(got, want) && !(len(got) == 0 && len(want) == 0) {
+			c.Violate(hc.Violation{What: "an edge is not routed through exactly the occupied pixels it meets, in order of travel (real grid)", Input: in, Observed: got, Expected: want})
+		}
+		c.Case(fmt.Sprintf("RouteCase %s %s %s %s %d%%nat %s", g.CoqTerm(), ptsTerm(verts), hc.CoqPt(a), hc.CoqPt(b), level, ptsTerm(got)), map[string]any{"input": in, "observed": got})
+	}
 	// raw lineIntersects calls, incl. large coordinates (the 128-bit product path)
 	m := c.N(3000, 200000)
 	for i := 0; i < m; i++ {
@@ -231,6 +282,45 @@ func runC02(c *hc.Ctx) error {
 			}
 		}
 		c.Case("PolyCase ("+snapCaseTerm(g, poly, ids, cfg, r)+")", caseJSON(g, poly, ids, cfg, r))
+	}
+	// tiny non-collapsing triangles at deep levels far from the origin (float cancellation in winding tests)
+	for _, wmID := range []int{17, 19, 20} {
+		g, err := embeddedGrid("WebMercatorQuad", wmID)
+		if err != nil || g.Deep > 32 {
+			continue
+		}
+		for k := 0; k < c.N(40, 2000); k++ {
+			level := g.Level(wmID)
+			span := g.Span(level)
+			px := (int64(194600000000000000)-g.Ext[0])/span + c.Rng.Int63n(1000)
+			py := (int64(90000000000000000)-g.Ext[1])/span + c.Rng.Int63n(1000)
+			cen := func(dx, dy int64) Pt { return g.centre(level, pixel{px + dx, py + dy}) }
+			tri := []Pt{cen(0, 0), cen(2+c.Rng.Int63n(2), 1), cen(1, 3+c.Rng.Int63n(2))}
+			ok := true
+			for j := range tri {
+				x, ok1 := fixRoundTrip(tri[j][0])
+				y, ok2 := fixRoundTrip(tri[j][1])
+				ok = ok && ok1 && ok2 && g.pixelOf(level, Pt{x, y}) == g.pixelOf(level, tri[j])
+				tri[j] = Pt{x, y}
+			}
+			if !ok || areaSign(tri) <= 0 {
+				continue
+			}
+			poly := [][]Pt{tri}
+			cfg := snap.Config{KeepPointsAndLines: c.Rng.Intn(2) == 0}
+			r := runSnap(g, poly, []int{wmID}, cfg, watchdog)
+			c.Sum.Evaluations++
+			c.Count("tiny triangle far from the origin, WebMercatorQuad")
+			c.Nontrivial(keyOf(g, poly, []int{wmID}, cfg))
+			want := []Pt{cen(0, 0), tri[1], tri[2]}
+			for j := range want {
+				want[j] = g.centre(level, g.pixelOf(level, tri[j]))
+			}
+			if r.Panic != "" || len(r.ByID[wmID]) != 1 || len(r.ByID[wmID][0]) != 1 || !reflect.DeepEqual(r.ByID[wmID][0][0], want) {
+				c.Violate(hc.Violation{What: "a non-collapsing counter-clockwise triangle is not returned as the concatenation of its routed edges, shell counter-clockwise", Input: caseJSON(g, poly, []int{wmID}, cfg, r), Expected: want})
+			}
+			c.Case("PolyCase ("+snapCaseTerm(g, poly, []int{wmID}, cfg, r)+")", caseJSON(g, poly, []int{wmID}, cfg, r))
+		}
 	}
 	return nil
 }
